@@ -5,7 +5,7 @@ import Deb822Verif.Model.Codec
   (serialize_with, deserialize_with, Rust type) triple that occurs in `Gen/Structs.lean`
   the hand-written `registry` gives either
     * `modelled c`     a Lean model of the pair with its domain `c.canon` (round-trip lemma in Props/C16),
-    * `noRoundTrip c w` a model of the pair and a value `w` that does not survive it,
+    * `noRoundTrip c w` a model of the pair and a value `w` that does not survive it (no entry at present),
     * `external why`   the pair is not modelled here (Relations, Url, Version, dates …): the harness
                        supplies, per request, what the real codec answers; the property's hypothesis
                        "the field's codec round-trips" is then checked on the real code by the worker.
@@ -103,12 +103,6 @@ def yesnoCodec (err : Str → Str) : LeafCodec where
 def errYesnoControl (t : Str) : Str := "invalid value for yesno: ".toList ++ t
 def errYesnoApt (_ : Str) : Str := "Invalid value for yes/no field".toList
 
-/-- `PDiffs`: read with `deserialize_yesno`, written with `ToString` (`true`/`false`) -/
-def pdiffsCodec : LeafCodec where
-  ser := boolCodec.ser
-  de := (yesnoCodec errYesnoApt).de
-  canon := fun _ => False
-
 /-- the convert.rs test pair `to_bool` / `from_bool`: anything but `ja` reads as false -/
 def jaNeeCodec : LeafCodec where
   ser := fun v => match v with | .bool true => "ja".toList | _ => "nee".toList
@@ -144,11 +138,11 @@ def fileListCodec : LeafCodec where
   de := fun t => .ok (.list (splitWhitespace t))
   canon := wordsCodec.canon
 
-/-- `split('\n')` / `join("\n")` (`Package-List`, `Copyright`) -/
+/-- `join("\n")` / `if text.is_empty() { [] } else { text.split('\n') }` (`Package-List`, `Copyright`) -/
 def splitLinesCodec : LeafCodec where
   ser := listSer ['\n']
-  de := fun t => .ok (.list (splitOn '\n' t))
-  canon := fun v => ∃ l, v = .list l ∧ l ≠ [] ∧ ∀ w ∈ l, '\n' ∉ w
+  de := fun t => .ok (.list (if t = [] then [] else splitOn '\n' t))
+  canon := fun v => ∃ l, v = .list l ∧ l ≠ [[]] ∧ ∀ w ∈ l, '\n' ∉ w
 
 /-- `lines()` / `join("\n")` (ftpmaster `Sources`, `Binaries`) -/
 def linesCodec : LeafCodec where
@@ -262,7 +256,6 @@ def registry : List ((Str × Str × Str) × Kind) := [
   ((c!"control.serialize_yesno", c!"control.deserialize_yesno", c!"bool"), .modelled (yesnoCodec errYesnoControl)),
   ((c!"aptsources.serializer_yesno", c!"aptsources.deserialize_yesno", c!"bool"), .modelled (yesnoCodec errYesnoApt)),
   ((c!"derive.syn_ser_yesno", c!"derive.syn_de_yesno", c!"bool"), .modelled (yesnoCodec errYesnoControl)),
-  ((c!"", c!"aptsources.deserialize_yesno", c!"bool"), .noRoundTrip pdiffsCodec (.bool true)),
   ((c!"convert.from_bool", c!"convert.to_bool", c!"bool"), .modelled jaNeeCodec),
   ((c!"apt.join_whitespace", c!"apt.deserialize_components", c!"Vec<String>"), .modelled wordsCodec),
   ((c!"apt.join_whitespace", c!"apt.deserialize_architectures", c!"Vec<String>"), .modelled wordsCodec),
